@@ -327,3 +327,50 @@ func Text(v interface{}) string {
 	}
 	return strings.TrimRight(buf.String(), "\n")
 }
+
+// OrderedKeys returns, for every object in the text, the member names in textual order (keyed by pointer).
+func OrderedKeys(b []byte) (map[string][]string, error) {
+	dec := json.NewDecoder(bytes.NewReader(b))
+	dec.UseNumber()
+	out := map[string][]string{}
+	var walk func(path []string) error
+	walk = func(path []string) error {
+		tok, err := dec.Token()
+		if err != nil {
+			return err
+		}
+		if d, ok := tok.(json.Delim); ok {
+			switch d {
+			case '{':
+				ptr := TokensToPointer(path)
+				out[ptr] = []string{}
+				for dec.More() {
+					kt, err := dec.Token()
+					if err != nil {
+						return err
+					}
+					k, _ := kt.(string)
+					out[ptr] = append(out[ptr], k)
+					if err := walk(append(append([]string{}, path...), k)); err != nil {
+						return err
+					}
+				}
+				_, err = dec.Token()
+				return err
+			case '[':
+				for i := 0; dec.More(); i++ {
+					if err := walk(append(append([]string{}, path...), fmt.Sprint(i))); err != nil {
+						return err
+					}
+				}
+				_, err = dec.Token()
+				return err
+			}
+		}
+		return nil
+	}
+	if err := walk(nil); err != nil {
+		return nil, err
+	}
+	return out, nil
+}
